@@ -380,25 +380,29 @@ func vC25Query(tr *lib.Trace, r *rand.Rand, n int) {
 			}
 			sort.Strings(want)
 			wantS := g.ids.list(cols) + " " + strconv.Itoa(len(want)) + " " + strings.Join(want, ";")
-			first := true
+			firstGot, firstPlan, failed := "", "", false
 			for _, st := range vstrategies {
 				res, plan := g.execute(q.src(), st, r.Uint64())
 				if res.err == "skip" {
 					continue
 				}
 				got := res.show(&g.ids)
-				if first {
-					first = false
-					tr.Q("eval "+q.toks(&g.ids), got)
-					tr.Sample(q.src() + "  =>  " + vtrunc(plan, 160))
+				if firstGot == "" {
+					firstGot, firstPlan = got, plan
 				}
 				if got != wantS {
+					failed = true
 					tr.Fail("where-vs-language:"+strings.Join(ks, "+"),
 						"db: "+g.describe()+" query: "+q.src()+" | index considered "+fmt.Sprint(ix)+" | strategy "+st.name+
 							" executes: "+vtrunc(plan, 300)+" | rows on which the language evaluates the expression to true: "+
 							vtrunc(wantS, 300)+" | executed: "+vtrunc(got, 300)+" | columns "+strings.Join(g.ids.names, ","))
 					break
 				}
+			}
+			// the model replay only where the direct oracle is silent (no double report)
+			if !failed && firstGot != "" {
+				tr.Q("eval "+q.toks(&g.ids), firstGot)
+				tr.Sample(q.src() + "  =>  " + vtrunc(firstPlan, 160))
 			}
 		}
 		g.close()
